@@ -1,7 +1,7 @@
 (* C10: the governance tally never fails except for "total voting stake is
    zero"; the "voted stake greater than total" error (proposal.go:137-141) and
    the subShares underflow (governance.go:511-519) are unreachable under the
-   share invariant. *)
+   share invariant -- for ARBITRARY uint8 vote values (castVote accepts any). *)
 From Verif Require Import Lib.Base NoHalt.Model NoHalt.Proofs.
 
 Local Ltac b2p :=
@@ -12,7 +12,53 @@ Local Ltac b2p :=
   | H : (_ <? _) = false |- _ => apply N.ltb_ge in H
   end.
 
-Definition sh_sum (m : shmap) : N := let '(y, n, a) := m in y + n + a.
+(* ---------- finite sums over vote values ---------- *)
+Lemma fsum_ext n f g : (forall v, f v = g v) -> fsum n f = fsum n g.
+Proof. intros H. induction n as [|k IH]; cbn [fsum]; [reflexivity|]. rewrite IH, H. reflexivity. Qed.
+
+Lemma fsum_zero n : fsum n sh_empty = 0.
+Proof. induction n as [|k IH]; cbn [fsum]; [reflexivity|]. rewrite IH. reflexivity. Qed.
+
+Lemma fsum_add n f g : fsum n (fun v => f v + g v) = fsum n f + fsum n g.
+Proof. induction n as [|k IH]; cbn [fsum]; [reflexivity|]. rewrite IH. lia. Qed.
+
+Lemma fsum_le n f g : (forall v, f v <= g v) -> fsum n f <= fsum n g.
+Proof. intros H. induction n as [|k IH]; cbn [fsum]; [lia|]. specialize (H (N.of_nat k)). lia. Qed.
+
+(* updating an entry below the bound *)
+Lemma fsum_upd n m k x :
+  (N.to_nat k < n)%nat -> fsum n (sh_upd m k x) + m k = fsum n m + x.
+Proof.
+  induction n as [|j IH]; intros Hk; [lia|]. cbn [fsum]. unfold sh_upd at 2.
+  destruct (N.of_nat j =? k) eqn:E; b2p.
+  - (* the updated entry is the last one: the prefix is untouched *)
+    assert (Hpre : fsum j (sh_upd m k x) = fsum j m).
+    { clear IH Hk. subst k.
+      assert (G : forall i, (i <= j)%nat -> fsum i (sh_upd m (N.of_nat j) x) = fsum i m).
+      { induction i as [|i IHi]; intros Hi; cbn [fsum]; [reflexivity|].
+        rewrite IHi by lia. unfold sh_upd.
+        destruct (N.of_nat i =? N.of_nat j) eqn:E2; b2p; [lia|reflexivity]. }
+      apply G. lia. }
+    rewrite Hpre. subst k. lia.
+  - assert (N.to_nat k < j)%nat by lia. specialize (IH H). lia.
+Qed.
+
+Lemma fsum_get_le n m k : (N.to_nat k < n)%nat -> m k <= fsum n m.
+Proof.
+  induction n as [|j IH]; intros Hk; [lia|]. cbn [fsum].
+  destruct (N.eq_dec (N.of_nat j) k) as [<-|Hne]; [lia|].
+  assert (N.to_nat k < j)%nat by lia. specialize (IH H). lia.
+Qed.
+
+Lemma fsum_div_le n f b t : t <> 0 -> fsum n (fun v => f v * b / t) <= fsum n f * b / t.
+Proof.
+  intros Ht. induction n as [|k IH]; cbn [fsum]; [apply N.le_0_l|].
+  rewrite N.mul_add_distr_r.
+  eapply N.le_trans; [|apply div_add_le; exact Ht].
+  apply N.add_le_mono_r. exact IH.
+Qed.
+
+Definition vote_ok (v : vote) : Prop := (N.to_nat v < nvotes)%nat.
 
 (* shares delegated to [to] by the accounts that voted (each vote counted) *)
 Fixpoint voter_shares (to : N) (delegs : list (N * N * N)) (votes : list (N * vote)) : N :=
@@ -33,95 +79,101 @@ Fixpoint voter_shares (to : N) (delegs : list (N * N * N)) (votes : list (N * vo
 Definition share_inv (validators delegs : list (N * N * N)) (votes : list (N * vote)) : Prop :=
   forall to bal ts, In (to, bal, ts) validators -> voter_shares to delegs votes <= ts.
 
-Lemma vote_eqb_eq a b : vote_eqb a b = true <-> a = b.
-Proof. destruct a, b; cbn; split; congruence. Qed.
+(* every stored vote is a uint8 *)
+Definition votes_ok (votes : list (N * vote)) : Prop := Forall (fun x => vote_ok (snd x)) votes.
 
-Lemma add_sum m v x : sh_sum (add_shares m v x) = sh_sum m + x.
-Proof. destruct m as [[y n] a], v; cbn; lia. Qed.
-Lemma add_get_same m v x : sh_get (add_shares m v x) v = sh_get m v + x.
-Proof. destruct m as [[y n] a], v; cbn; lia. Qed.
-Lemma add_get_other m v v' x : v <> v' -> sh_get (add_shares m v x) v' = sh_get m v'.
-Proof. destruct m as [[y n] a], v, v'; cbn; congruence. Qed.
+Lemma add_sum m v x : vote_ok v -> sh_sum (add_shares m v x) = sh_sum m + x.
+Proof.
+  intros Hv. unfold sh_sum, add_shares.
+  pose proof (fsum_upd nvotes m v (m v + x) Hv). lia.
+Qed.
+Lemma add_get_same m v x : add_shares m v x v = m v + x.
+Proof. unfold add_shares, sh_upd. rewrite N.eqb_refl. reflexivity. Qed.
+Lemma add_get_other m v v' x : v <> v' -> add_shares m v x v' = m v'.
+Proof. intros H. unfold add_shares, sh_upd. destruct (v' =? v) eqn:E; b2p; [congruence|reflexivity]. Qed.
 
 Lemma sub_ok m v x :
-  x <= sh_get m v ->
+  vote_ok v -> x <= m v ->
   exists m', sub_shares m v x = Ok m' /\ sh_sum m' + x = sh_sum m /\
-             sh_get m' v = sh_get m v - x /\ (forall v', v <> v' -> sh_get m' v' = sh_get m v').
+             m' v = m v - x /\ (forall v', v <> v' -> m' v' = m v').
 Proof.
-  intros H. unfold sub_shares. rewrite qsub_ok by exact H. cbn [bind].
-  eexists. split; [reflexivity|].
-  destruct m as [[y n] a], v; cbn in *; repeat split; try lia;
-    intros v' Hv; destruct v'; cbn; congruence.
+  intros Hv H. unfold sub_shares. rewrite qsub_ok by exact H. cbn [bind].
+  eexists. split; [reflexivity|]. repeat split.
+  - unfold sh_sum. pose proof (fsum_upd nvotes m v (m v - x) Hv). lia.
+  - unfold sh_upd. rewrite N.eqb_refl. reflexivity.
+  - intros v' Hne. unfold sh_upd. destruct (v' =? v) eqn:E; b2p; [congruence|reflexivity].
 Qed.
 
 (* validator voted [ov]: its entry covers everything still to be deducted *)
 Lemma tally_votes_own to ov delegs votes :
-  forall m, voter_shares to delegs votes <= sh_get m ov ->
+  vote_ok ov -> votes_ok votes ->
+  forall m, voter_shares to delegs votes <= m ov ->
   exists m', tally_votes to (Some ov) delegs votes m = Ok m' /\ sh_sum m' = sh_sum m.
 Proof.
-  induction votes as [|[d v] r IH]; intros m H; cbn [tally_votes voter_shares] in *.
+  intros Hov. induction votes as [|[d v] r IH]; intros Hvs m H; cbn [tally_votes voter_shares] in *.
   - exists m. split; reflexivity.
-  - destruct (deleg_shares d to delegs) as [s|]; [|apply IH; exact H].
-    unfold tally_step. destruct (vote_eqb ov v) eqn:E.
-    + cbn [bind]. apply IH. lia.
-    + destruct (sub_ok m ov s ltac:(lia)) as [m1 [Hs [Hsum [Hget Hoth]]]].
+  - inversion Hvs as [|x l Hv Hr]; subst. cbn [snd] in Hv.
+    destruct (deleg_shares d to delegs) as [s|]; [|apply IH; assumption].
+    unfold tally_step. destruct (ov =? v) eqn:E; b2p.
+    + cbn [bind]. apply IH; [exact Hr|lia].
+    + destruct (sub_ok m ov s Hov ltac:(lia)) as [m1 [Hs [Hsum [Hget Hoth]]]].
       rewrite Hs. cbn [bind].
-      assert (Hne : v <> ov).
-      { intros ->. assert (vote_eqb ov ov = true) by (apply vote_eqb_eq; reflexivity). congruence. }
-      destruct (IH (add_shares m1 v s)) as [m' [Hm' Hsum']].
-      { rewrite add_get_other by exact Hne. rewrite Hget. lia. }
-      exists m'. split; [exact Hm'|]. rewrite Hsum', add_sum. lia.
+      destruct (IH Hr (add_shares m1 v s)) as [m' [Hm' Hsum']].
+      { rewrite add_get_other by congruence. rewrite Hget. lia. }
+      exists m'. split; [exact Hm'|]. rewrite Hsum', add_sum by exact Hv. lia.
 Qed.
 
 (* validator did not vote: only additions *)
 Lemma tally_votes_none to delegs votes :
+  votes_ok votes ->
   forall m, exists m', tally_votes to None delegs votes m = Ok m' /\
                        sh_sum m' = sh_sum m + voter_shares to delegs votes.
 Proof.
-  induction votes as [|[d v] r IH]; intros m; cbn [tally_votes voter_shares].
+  induction votes as [|[d v] r IH]; intros Hvs m; cbn [tally_votes voter_shares].
   - exists m. split; [reflexivity|lia].
-  - destruct (deleg_shares d to delegs) as [s|]; [|apply IH].
+  - inversion Hvs as [|x l Hv Hr]; subst. cbn [snd] in Hv.
+    destruct (deleg_shares d to delegs) as [s|]; [|apply IH; exact Hr].
     cbn [tally_step bind].
-    destruct (IH (add_shares m v s)) as [m' [Hm' Hsum']].
-    exists m'. split; [exact Hm'|]. rewrite Hsum', add_sum. lia.
+    destruct (IH Hr (add_shares m v s)) as [m' [Hm' Hsum']].
+    exists m'. split; [exact Hm'|]. rewrite Hsum', add_sum by exact Hv. lia.
+Qed.
+
+Lemma vote_of_ok who votes ov : votes_ok votes -> vote_of who votes = Some ov -> vote_ok ov.
+Proof.
+  induction votes as [|[w v] r IH]; cbn [vote_of]; intros Hvs H; [discriminate|].
+  inversion Hvs as [|x l Hv Hr]; subst. destruct (w =? who); [injection H as <-; exact Hv|apply IH; assumption].
 Qed.
 
 Lemma validator_shares_ok to ts delegs votes :
-  voter_shares to delegs votes <= ts ->
+  votes_ok votes -> voter_shares to delegs votes <= ts ->
   exists m, validator_shares to ts delegs votes = Ok m /\ sh_sum m <= ts.
 Proof.
-  intros H. unfold validator_shares.
-  destruct (vote_of to votes) as [ov|].
-  - destruct (tally_votes_own to ov delegs votes (add_shares (0, 0, 0) ov ts)) as [m [Hm Hsum]].
-    { rewrite add_get_same. destruct ov; cbn [sh_get]; lia. }
-    exists m. split; [exact Hm|]. rewrite Hsum, add_sum. cbn [sh_sum]. lia.
-  - destruct (tally_votes_none to delegs votes (0, 0, 0)) as [m [Hm Hsum]].
-    exists m. split; [exact Hm|]. rewrite Hsum. cbn [sh_sum]. lia.
+  intros Hvs H. unfold validator_shares.
+  destruct (vote_of to votes) as [ov|] eqn:Eo.
+  - pose proof (vote_of_ok _ _ _ Hvs Eo) as Hov.
+    destruct (tally_votes_own to ov delegs votes Hov Hvs (add_shares sh_empty ov ts)) as [m [Hm Hsum]].
+    { rewrite add_get_same. unfold sh_empty. lia. }
+    exists m. split; [exact Hm|]. rewrite Hsum, add_sum by exact Hov.
+    unfold sh_sum. rewrite fsum_zero. lia.
+  - destruct (tally_votes_none to delegs votes Hvs sh_empty) as [m [Hm Hsum]].
+    exists m. split; [exact Hm|]. rewrite Hsum. unfold sh_sum. rewrite fsum_zero. lia.
 Qed.
 
-Lemma validator_stakes_ok bal ts m :
-  sh_sum m <= ts ->
-  exists st, validator_stakes bal ts m = Ok st /\ sh_sum st <= bal.
+Lemma stake_pure_le bal ts s : ts <> 0 -> stake_pure bal ts s <= s * bal / ts.
 Proof.
-  destruct m as [[y n] a]. cbn [sh_sum]. intros H. unfold validator_stakes.
-  destruct (stake_for_shares_ok bal ts y) as [sy [Hy Cy]].
-  destruct (stake_for_shares_ok bal ts n) as [sn [Hn Cn]].
-  destruct (stake_for_shares_ok bal ts a) as [sa [Ha Ca]].
-  rewrite Hy, Hn, Ha. cbn [bind]. eexists. split; [reflexivity|]. cbn [sh_sum].
-  destruct (N.eq_dec ts 0) as [Hts|Hts].
-  - destruct Cy as [->|[? _]]; [|contradiction].
-    destruct Cn as [->|[? _]]; [|contradiction].
-    destruct Ca as [->|[? _]]; [|contradiction]. lia.
-  - assert (Hb : forall x s, (s = 0 \/ ts <> 0 /\ s = x * bal / ts) -> s <= x * bal / ts).
-    { intros x s [->|[_ ->]]; [apply N.le_0_l|apply N.le_refl]. }
-    apply Hb in Cy, Cn, Ca.
-    assert (Hsum : y * bal / ts + n * bal / ts + a * bal / ts <= (y + n + a) * bal / ts).
-    { rewrite !N.mul_add_distr_r.
-      eapply N.le_trans; [|apply div_add_le; exact Hts].
-      apply N.add_le_mono_r. apply div_add_le. exact Hts. }
-    assert (Htop : (y + n + a) * bal / ts <= bal).
-    { rewrite N.mul_comm. apply mul_frac_le; assumption. }
-    lia.
+  intros _. unfold stake_pure. destruct ((s =? 0) || (bal =? 0) || (ts =? 0)); [apply N.le_0_l|apply N.le_refl].
+Qed.
+Lemma stake_pure_ts0 bal s : stake_pure bal 0 s = 0.
+Proof. unfold stake_pure. rewrite N.eqb_refl, !orb_true_r. reflexivity. Qed.
+
+Lemma validator_stakes_le bal ts m : sh_sum m <= ts -> sh_sum (validator_stakes bal ts m) <= bal.
+Proof.
+  intros H. unfold sh_sum, validator_stakes in *.
+  destruct (N.eq_dec ts 0) as [->|Hts].
+  - rewrite (fsum_ext _ _ sh_empty) by (intros v; apply stake_pure_ts0). rewrite fsum_zero. lia.
+  - eapply N.le_trans; [apply fsum_le; intros v; apply stake_pure_le; exact Hts|].
+    eapply N.le_trans; [apply fsum_div_le; exact Hts|].
+    rewrite N.mul_comm. apply mul_frac_le; assumption.
 Qed.
 
 Lemma share_inv_tail v r delegs votes :
@@ -130,39 +182,38 @@ Proof. intros H to bal ts Hin. apply (H to bal ts). right. exact Hin. Qed.
 
 (* VotedSum <= totalVotingStake, and no subShares underflow, for ANY votes *)
 Lemma tally_results_ok validators delegs votes :
-  share_inv validators delegs votes ->
+  votes_ok votes -> share_inv validators delegs votes ->
   exists rs, tally_results validators delegs votes = Ok rs /\
              sh_sum rs <= total_voting_stake validators.
 Proof.
-  induction validators as [|[[to bal] ts] r IH]; intros Hinv; cbn [tally_results total_voting_stake].
-  - exists (0, 0, 0). split; [reflexivity|cbn; lia].
-  - destruct (validator_shares_ok to ts delegs votes) as [m [Hm Hms]].
+  intros Hvs. induction validators as [|[[to bal] ts] r IH]; intros Hinv; cbn [tally_results total_voting_stake].
+  - exists sh_empty. split; [reflexivity|]. unfold sh_sum. rewrite fsum_zero. lia.
+  - destruct (validator_shares_ok to ts delegs votes Hvs) as [m [Hm Hms]].
     { apply (Hinv to bal ts). left. reflexivity. }
-    destruct (validator_stakes_ok bal ts m Hms) as [st [Hst Hsts]].
     destruct (IH (share_inv_tail _ _ _ _ Hinv)) as [rest [Hrest Hrs]].
-    rewrite Hm. cbn [bind]. rewrite Hst. cbn [bind]. rewrite Hrest. cbn [bind].
-    destruct st as [[y n] a], rest as [[y' n'] a']. eexists. split; [reflexivity|].
-    cbn [sh_sum] in *. lia.
+    rewrite Hm. cbn [bind]. rewrite Hrest. cbn [bind].
+    eexists. split; [reflexivity|].
+    unfold sh_sum in *. rewrite fsum_add.
+    pose proof (validator_stakes_le bal ts m Hms) as Hst. unfold sh_sum in Hst. lia.
 Qed.
 
 Lemma close_proposal_ok rs total th :
   total <> 0 -> sh_sum rs <= total -> is_fatal (close_proposal rs total th) = false.
 Proof.
   intros Ht Hs. unfold close_proposal. rewrite (proj2 (N.eqb_neq total 0) Ht).
-  destruct rs as [[y n] a]. cbn [sh_sum] in Hs.
-  destruct (total <? y + n + a) eqn:E; b2p; [lia|].
-  destruct (y =? 0); [reflexivity|]. rewrite qquo_ok by exact Ht. reflexivity.
+  destruct (total <? sh_sum rs) eqn:E; b2p; [lia|].
+  destruct (rs VYes =? 0); [reflexivity|]. rewrite qquo_ok by exact Ht. reflexivity.
 Qed.
 
 (* the tally is fatal EXACTLY when the total voting stake is zero *)
 Lemma tally_fatal_iff validators delegs votes th :
-  share_inv validators delegs votes ->
+  votes_ok votes -> share_inv validators delegs votes ->
   (tally validators delegs votes th = Fatal <-> total_voting_stake validators = 0).
 Proof.
-  intros Hinv. unfold tally.
+  intros Hvs Hinv. unfold tally.
   destruct (total_voting_stake validators =? 0) eqn:E; b2p.
   - split; [intros _; exact E|reflexivity].
-  - destruct (tally_results_ok validators delegs votes Hinv) as [rs [Hrs Hle]].
+  - destruct (tally_results_ok validators delegs votes Hvs Hinv) as [rs [Hrs Hle]].
     rewrite Hrs. cbn [bind].
     pose proof (close_proposal_ok rs _ th E Hle) as Hc.
     destruct (close_proposal rs (total_voting_stake validators) th); [|discriminate].
@@ -210,8 +261,7 @@ Proof.
   induction delegs as [|[[x t] s] r IH]; cbn [deleg_shares drop_delegator all_shares]; [lia|].
   destruct (x =? d) eqn:E1; cbn [andb].
   - destruct (t =? to) eqn:E2.
-    + (* first match: later duplicates of (d,to) only make the right side larger *)
-      assert (all_shares to (drop_delegator d r) <= all_shares to r).
+    + assert (all_shares to (drop_delegator d r) <= all_shares to r).
       { clear. induction r as [|[[x t] s] r IH]; cbn [drop_delegator all_shares]; [lia|].
         destruct (x =? d); [destruct (t =? to); lia|].
         cbn [all_shares]. destruct (t =? to); lia. }
@@ -255,32 +305,31 @@ Qed.
 
 (* ---------- the statements used by Props/C10.v ---------- *)
 Theorem tally_never_exceeds_total_l validators delegs votes :
-  NoDup (map fst votes) -> ledger_inv validators delegs ->
-  exists y n a, tally_results validators delegs votes = Ok (y, n, a) /\
-                y + n + a <= total_voting_stake validators.
+  votes_ok votes -> NoDup (map fst votes) -> ledger_inv validators delegs ->
+  exists rs, tally_results validators delegs votes = Ok rs /\
+             sh_sum rs <= total_voting_stake validators.
 Proof.
-  intros Hnd Hl.
-  destruct (tally_results_ok validators delegs votes (share_inv_of_ledger _ _ _ Hnd Hl))
-    as [[[y n] a] [H Hle]].
-  exists y, n, a. split; [exact H|exact Hle].
+  intros Hvs Hnd Hl.
+  exact (tally_results_ok validators delegs votes Hvs (share_inv_of_ledger _ _ _ Hnd Hl)).
 Qed.
 
 Theorem tally_fatal_iff_l validators delegs votes th :
-  NoDup (map fst votes) -> ledger_inv validators delegs ->
+  votes_ok votes -> NoDup (map fst votes) -> ledger_inv validators delegs ->
   (tally validators delegs votes th = Fatal <->
    Forall (fun v => snd (fst v) = 0) validators).
 Proof.
-  intros Hnd Hl. rewrite <- total_zero_iff.
-  apply tally_fatal_iff. apply share_inv_of_ledger; assumption.
+  intros Hvs Hnd Hl. rewrite <- total_zero_iff.
+  apply tally_fatal_iff; [exact Hvs|]. apply share_inv_of_ledger; assumption.
 Qed.
 
 (* without the invariant the "should never happen" errors ARE reachable:
    a delegation larger than the pool's shares underflows subShares *)
 Lemma tally_needs_invariant :
   exists validators delegs votes th,
-    total_voting_stake validators <> 0 /\ tally validators delegs votes th = Fatal.
+    votes_ok votes /\ total_voting_stake validators <> 0 /\ tally validators delegs votes th = Fatal.
 Proof.
   exists [(1, 100, 10)], [(2, 1, 11)], [(1, VYes); (2, VNo)], 68.
+  split; [repeat constructor; cbv; lia|].
   split; [cbn; lia|reflexivity].
 Qed.
 
@@ -288,24 +337,30 @@ Qed.
 Definition ex_validators : list (N * N * N) := [(1, 176000, 170000); (2, 0, 5000); (3, 192000, 192000)].
 Definition ex_delegs : list (N * N * N) :=
   [(1, 1, 160000); (10, 1, 10000); (2, 2, 5000); (3, 3, 190000); (10, 3, 2000)].
-(* validator 1 votes yes, its delegator 10 overrides with no; validator 2 was
-   slashed to zero; validator 3 is silent; account 11 has no delegation *)
-Definition ex_votes : list (N * vote) := [(1, VYes); (10, VNo); (2, VYes); (11, VYes)].
+(* validator 1 votes yes, its delegator 10 overrides with the invalid value 200;
+   validator 2 was slashed to zero; validator 3 is silent; account 11 has no delegation *)
+Definition ex_votes : list (N * vote) := [(1, VYes); (10, 200); (2, VYes); (11, 0)].
 
-Example ex_hyps : NoDup (map fst ex_votes) /\ ledger_inv ex_validators ex_delegs.
+Example ex_hyps : votes_ok ex_votes /\ NoDup (map fst ex_votes) /\ ledger_inv ex_validators ex_delegs.
 Proof.
-  split.
+  split; [repeat constructor; cbv; lia|]. split.
   - cbn. repeat constructor; cbn; intuition discriminate.
   - intros to bal ts Hin. cbn in Hin.
     destruct Hin as [H|[H|[H|[]]]]; injection H as <- <- <-; vm_compute; discriminate.
 Qed.
 
-Example ex_tally : tally ex_validators ex_delegs ex_votes 68 = Ok ((165647, 12352, 0), false).
+Definition tally_view (r : res (shmap * bool)) : option (N * N * N * N * bool) :=
+  match r with
+  | Ok (m, p) => Some (m VYes, m VNo, m VAbstain, m 200, p)
+  | Fatal => None
+  end.
+
+Example ex_tally : tally_view (tally ex_validators ex_delegs ex_votes 68) = Some (165647, 0, 0, 12352, false).
 Proof. vm_compute. reflexivity. Qed.
 
 (* no votes at all, and votes only from non-validators *)
-Example ex_tally_no_votes : tally ex_validators ex_delegs [] 68 = Ok ((0, 0, 0), false).
+Example ex_tally_no_votes : tally_view (tally ex_validators ex_delegs [] 68) = Some (0, 0, 0, 0, false).
 Proof. vm_compute. reflexivity. Qed.
-Example ex_tally_nonvalidators : tally ex_validators ex_delegs [(11, VYes); (10, VYes)] 68
-  = Ok ((12352, 0, 0), false).
+Example ex_tally_nonvalidators :
+  tally_view (tally ex_validators ex_delegs [(11, VYes); (10, VYes)] 68) = Some (12352, 0, 0, 0, false).
 Proof. vm_compute. reflexivity. Qed.
